@@ -2,9 +2,13 @@
 import os, json
 import vf
 
-DEVS = ["DevNoPauseCheckInAttempt", "DevDoubleTimer"]
+DEVS = ["DevNoPauseCheckInAttempt", "DevDoubleTimer", "DevNoClamp", "DevSuccessKeepsState"]
+# delay instances (Initial ms, MulN, MulD, MaxDelay ms) per saturation index Cap; the cap is deliberately NOT
+# Initial*Multiplier^n (only then does clamping the product matter).  The harness replays every path on one of several
+# real configurations with the same saturation index (multipliers 1.5, 2, 3, 4; see zzvRcDefaultDelays).
+DELAYS = {2: (20, 2, 1, 70), 3: (20, 3, 2, 60), 1: (20, 4, 1, 50)}
 HF = ["common/common_test.go.tmpl", "peer/reconnect_test.go"]
-INVS = "TypeOK OneTimer NoTimerWhilePaused"
+INVS = "TypeOK OneTimer NoTimerWhilePaused NextDelayOK"
 PROPS = "NoAttemptWhilePaused Backoff ArmIndex"
 
 # mismatch kinds that are violations of the statement (the others are binding drift -> exit 2)
@@ -13,16 +17,19 @@ VIOLATION_KINDS = {
     "extra-attempt": "DevDoubleTimer",                  # a second timer of the address fired and started an attempt of its own
     "backoff-order": "DevDoubleTimer",                  # n-th consecutive attempt started by a timer armed with another index
     "early-timer": "delay-too-short",                   # delay below nominal*(1-jitter)
-    "backoff-state": "backoff-index",                   # next delay is not min(initial*mult^attempts, max)
+    "backoff-state": "backoff-index",                   # next delay is not min(initial*mult^k, max), k = consecutive attempts
+                                                        # since the last success / cancel / reset
 }
 # drift (the code differs from the spec without breaking the statement): begin-unexpected (a superseded timer started
 # the attempt instead of the current one), skip-unexpected, state, timer-missing, extra-timer-harmless
 
 
-def cfg(addrs, cap_, maxatt, attbound, maxgate, maxinfl, withstop, dev=(), emit=True, invs=INVS, props=PROPS):
+def cfg(addrs, cap_, maxatt, attbound, maxgate, maxinfl, withstop, dev=(), emit=True, invs=INVS, props=PROPS, delays=None):
+    ini, mn, md, mx = delays or DELAYS[cap_]
     return ("CONSTANTS Addr = {%s} Cap = %d MaxAttempts = %d AttBound = %d MaxGate = %d MaxInfl = %d MaxPend = 2 "
+            "Initial = %d MulN = %d MulD = %d MaxDelay = %d "
             "WithStop = %s Dev = {%s} Emit = %s\nINIT Init\nNEXT Next\nVIEW view\nACTION_CONSTRAINT EmitEdge\n%s%s" % (
-                ",".join('"%s"' % a for a in addrs), cap_, maxatt, attbound, maxgate, maxinfl,
+                ",".join('"%s"' % a for a in addrs), cap_, maxatt, attbound, maxgate, maxinfl, ini, mn, md, mx,
                 "TRUE" if withstop else "FALSE", ",".join('"%s"' % d for d in dev), "TRUE" if emit else "FALSE",
                 ("INVARIANTS " + invs + "\n") if invs else "", ("PROPERTIES " + props + "\n") if props else ""))
 
@@ -37,7 +44,9 @@ def sensitivity(ctx, base, separately):
     """every deviation must be caught by TLC (separately: by each of the invariants that is meant to exclude it)"""
     caught = {}
     want = {"DevNoPauseCheckInAttempt": [("", "NoAttemptWhilePaused"), ("NoTimerWhilePaused", "")],
-            "DevDoubleTimer": [("OneTimer", ""), ("", "Backoff")]}
+            "DevDoubleTimer": [("OneTimer", ""), ("", "Backoff")],
+            "DevNoClamp": [("NextDelayOK", "")],
+            "DevSuccessKeepsState": [("NextDelayOK", ""), ("", "Backoff")]}
     for d, checks in want.items():
         if not separately:
             checks = [(INVS, PROPS)]
@@ -61,7 +70,7 @@ def replay(ctx, runs, initial_ms=20, jitter=0.2, max_len=100, par=24):
         paths, nnodes, nedges = vf.path_cover(ideal.edges, init_pred=is_init, max_len=max_len)
         models[name] = {"ideal": ideal, "paths": paths, "nodes": nnodes, "edges": nedges}
         inp.append({"name": name, "addrs": list(consts[0]), "cap": consts[1], "max_attempts": consts[2],
-                    "initial_ms": initial_ms, "jitter": jitter, "paths": paths})
+                    "configs": [], "jitter": jitter, "paths": paths})   # configs: the harness' list for this saturation index
     fn = vf.write_json(os.path.join(ctx.work, "recon_paths.json"), {"runs": inp})
     r = ctx.gotest("peer", HF, "^TestZZVReconReplay$", env={"ZZV_IN": fn, "ZZV_PAR": par, "ZZV_CORRUPT": os.environ.get("ZZV_CORRUPT", "")}, timeout=1500)
     summ = (r.of("summary") or [None])[0]
@@ -91,10 +100,12 @@ def report(ctx, res, where):
 
 
 def trace_cfg(addrs, cap_, maxatt):
+    ini, mn, md, mx = DELAYS[cap_]   # the recorded executions use several real configurations; the trace compares indices
     return ("CONSTANTS Addr = {%s} Cap = %d MaxAttempts = %d AttBound = 1000000 MaxGate = 1000000 MaxInfl = 1000000 "
-            "MaxPend = 1000000 WithStop = TRUE Dev = {} Emit = FALSE\nINIT TraceInit\nNEXT TraceNext\nCONSTRAINT HighWater\n"
-            "INVARIANTS TypeOK OneTimer NoTimerWhilePaused\nPOSTCONDITION TraceAccepted\n" % (
-                ",".join('"%s"' % a for a in addrs), cap_, maxatt))
+            "MaxPend = 1000000 Initial = %d MulN = %d MulD = %d MaxDelay = %d WithStop = TRUE Dev = {} Emit = FALSE\n"
+            "INIT TraceInit\nNEXT TraceNext\nCONSTRAINT HighWater\n"
+            "INVARIANTS TypeOK OneTimer NoTimerWhilePaused NextDelayOK\nPOSTCONDITION TraceAccepted\n" % (
+                ",".join('"%s"' % a for a in addrs), cap_, maxatt, ini, mn, md, mx))
 
 
 def _validate(ctx, name, tracefile, addrs, cap_, maxatt, where):
@@ -139,6 +150,18 @@ def _validate(ctx, name, tracefile, addrs, cap_, maxatt, where):
                 break
         if paused_before or ev.get("st", {}).get("paused"):
             kind, dev = "begin-while-paused", "DevNoPauseCheckInAttempt"
+    if dev is None and ev and ev.get("cmp"):
+        # the logged state by itself: the delay the next timer is armed with must be min(initial*mult^k, max)
+        # (idx = position of state.nextDelay on that ladder, -1 = not on it), k = the code's own counter;
+        # and a successful attempt ends the run of consecutive retries
+        st = ev.get("st", {})
+        for a_ in addrs:
+            if st.get("ex", {}).get(a_):
+                i_, n_ = st["idx"][a_], st["att"][a_]
+                if i_ != min(n_, cap_):
+                    kind, dev = "backoff-state", "backoff-index"
+                elif name_ == "AttemptEnd" and ev.get("ok") and ev.get("a") == a_ and i_ > 0:
+                    kind, dev = "backoff-state", "success-keeps-backoff"
     rec = {"event_index": h, "event": ev, "context": ctxt}
     if dev:
         ctx.finding("Reconnect:%s:%s:%s" % (dev, kind, where),
